@@ -80,11 +80,16 @@ Section C15.
     step E_eqb sem e_default cfg st o = (st', rc) -> rc <> 0 -> st' = st.
   Proof. exact (failed_tx_frame E_eqb sem e_default). Qed.
 
-  (** ZeroPermission and the methods reserved to manager contracts are refused to accounts *)
-  Theorem C15_guarded_refused : forall (st : @state E) c i,
-    step E_eqb sem e_default cfg_fixed st (OZero c i) = (st, 1) /\
-    step E_eqb sem e_default cfg_fixed st (OGuarded c) = (st, 1).
+  (** the methods reserved to manager contracts are refused to accounts (every configuration);
+      the repaired ZeroPermission does nothing to a proposal that is approved or rejected *)
+  Theorem C15_guarded_refused : forall cfg (st : @state E) c,
+    step E_eqb sem e_default cfg st (OGuarded c) = (st, 1).
   Proof. exact (guarded_refused E_eqb sem e_default). Qed.
+
+  Theorem C15_zero_permission_closed : forall (st : @state E) c i p,
+    get_prop st i = Some p -> is_open p = false ->
+    step E_eqb sem e_default cfg_fixed st (OZero c i) = (st, 0).
+  Proof. exact (zero_permission_closed E_eqb sem e_default). Qed.
 
   (** a special proposal concluded by the tally carries the ballot of an elector of weight 2 *)
   Theorem C15_special_needs_super : forall (st : @state E) p,
@@ -125,11 +130,15 @@ Section C15.
     trace_ok E_eqb sem accts nodes a tr k = 0 <-> trace_P E_eqb sem accts nodes a tr.
   Proof. exact (trace_ok_spec E_eqb sem e_default E_eqb_refl). Qed.
 
+  Theorem C15_trace_ok_skip_nil : forall accts nodes tr (a : @state E) k,
+    trace_ok_skip E_eqb sem [] accts nodes a tr k = trace_ok E_eqb sem accts nodes a tr k.
+  Proof. exact (trace_ok_skip_nil E_eqb sem). Qed.
+
   Theorem C15_step_ok_zero : forall accts nodes (a : @state E) o rc (b : @state E),
     step_ok E_eqb sem accts nodes a o rc b = 0 <->
     cl_final a b = true /\ cl_tally b = true /\ cl_ballots a b = true /\ cl_approved sem b = true /\
     cl_rejected sem a b = true /\ cl_special b = true /\ cl_refusal E_eqb accts nodes a o rc b = true /\
-    cl_object accts nodes a b = true /\ cl_header E_eqb a b = true /\ cl_avail a b = true /\ cl_bound b = true.
+    cl_object accts nodes a b = true /\ cl_header E_eqb a b = true /\ cl_avail a b = true /\ cl_bound a b = true.
   Proof. exact (step_ok_zero E_eqb sem e_default). Qed.
 End C15.
 Print Assumptions C15_approved_sound.
@@ -141,11 +150,13 @@ Print Assumptions C15_one_ballot_per_tx.
 Print Assumptions C15_refusals.
 Print Assumptions C15_failed_tx_frame.
 Print Assumptions C15_guarded_refused.
+Print Assumptions C15_zero_permission_closed.
 Print Assumptions C15_special_needs_super.
 Print Assumptions C15_final.
 Print Assumptions C15_manage_once.
 Print Assumptions C15_core_clauses_hold.
 Print Assumptions C15_trace_ok_spec.
+Print Assumptions C15_trace_ok_skip_nil.
 Print Assumptions C15_step_ok_zero.
 
 (** the decision function: approve iff the expression holds; for monotone expressions the
